@@ -2,7 +2,7 @@
 import ast
 
 from .core import (FUNC_TYPES, SCOPE_TYPES, AnchorError, atoms, call_name, dotted_text, expr_guards,
-                   norm, own_nodes, short)
+                   norm, own_nodes, short, kwarg)
 from .cfg import cfg_of
 
 
@@ -922,7 +922,8 @@ def _alias_map(func, pure_methods=()):
         return True
     for a in stmts_in(func, ast.Assign):
         if len(a.targets) == 1 and isinstance(a.targets[0], ast.Name):
-            if pure(a.value) and cnt.get(a.targets[0].id) == 1:
+            # a fresh mutable container is an object with identity, not a name for an expression
+            if pure(a.value) and cnt.get(a.targets[0].id) == 1 and not isinstance(a.value, (ast.List, ast.Dict, ast.Set)):
                 val[a.targets[0].id] = a.value
     return val
 
@@ -1073,10 +1074,31 @@ def path_summaries(func, max_paths=200):
                     continue            # contradicts an earlier test of the same expression
                 f2 = facts | {key}
             dfs(m, env, f2, seen | {m.id})
-    dfs(c.entry, {}, frozenset(), {c.entry.id})
+    dfs(c.entry, _module_constants(func), frozenset(), {c.entry.id})
     if count[0] > max_paths:
         return None
     return out
+
+
+def _module_constants(func):
+    """module-level names bound exactly once, to a number or a string, and not shadowed in func: they read as their value"""
+    mod = getattr(func, '_mod', None)
+    if mod is None:
+        return {}
+    cnt, val = {}, {}
+    for n in ast.walk(mod.tree):
+        if isinstance(n, ast.Name) and isinstance(n.ctx, (ast.Store, ast.Del)):
+            cnt[n.id] = cnt.get(n.id, 0) + 1
+        elif isinstance(n, (ast.Global, ast.Nonlocal)):
+            for nm in n.names:
+                cnt[nm] = cnt.get(nm, 0) + 2
+    for st in mod.tree.body:
+        if isinstance(st, ast.Assign) and len(st.targets) == 1 and isinstance(st.targets[0], ast.Name) and isinstance(st.value, ast.Constant) \
+                and isinstance(st.value.value, (int, str)) and not isinstance(st.value.value, bool) and cnt.get(st.targets[0].id) == 1:
+            val[st.targets[0].id] = st.value
+    for p_ in params(func):
+        val.pop(p_, None)
+    return val
 
 
 def summary_text(summ):
@@ -1097,6 +1119,10 @@ def atom_key(e, func=None, total_order=True, pure_methods=()):
     x = (lambda t: xnorm(t, func, pure_methods=pure_methods)) if func is not None else norm
     if isinstance(e, ast.Compare) and len(e.ops) == 1:
         op, l, r = type(e.ops[0]), x(e.left), x(e.comparators[0])
+        c0 = e.comparators[0]
+        if op in (ast.In, ast.NotIn) and isinstance(c0, (ast.Tuple, ast.List, ast.Set)) and c0.elts and \
+                all(isinstance(v, ast.Constant) and isinstance(v.value, str) for v in c0.elts):
+            r = '{%s}' % ', '.join(sorted(repr(v.value) for v in c0.elts))      # membership in a display of constants: a set of them
         if op in (ast.NotEq, ast.NotIn, ast.IsNot):
             op, pol = {ast.NotEq: ast.Eq, ast.NotIn: ast.In, ast.IsNot: ast.Is}[op], not pol
         if op is ast.Gt:
@@ -1135,6 +1161,11 @@ def decide(func, start, value_of, label_of, limit=4000, pure_methods=()):
         if n.kind in ('exit', 'raise'):
             out.add('<exit>')
             continue
+        if n.kind == 'for':
+            v = value_of('<for>', n)
+            if v is not None:
+                todo.extend(m for m, k in n.succ if k == ('T' if v else 'F'))
+                continue
         if n.kind == 'test' and n.ast is not None:
             key, pol = atom_key(n.ast, func, pure_methods=pure_methods)
             v = value_of(key, n)
@@ -1145,3 +1176,133 @@ def decide(func, start, value_of, label_of, limit=4000, pure_methods=()):
                 continue
         todo.extend(m for m, k in n.succ if k not in ('exc', 'h'))
     return out
+
+
+def value_cases(func, expr, _depth=0):
+    """what `expr` may evaluate to in func, by cases: [(list of (atom key, polarity) that select the case, value expression)].
+    Understands a conditional expression, a local with one binding, and a local bound in the two arms of one if/else - the three
+    spellings of `A if C else B`.  Anything else is one unconditional case."""
+    if _depth > 4:
+        return [([], expr)]
+    if isinstance(expr, ast.IfExp):
+        k, pol = atom_key(expr.test, func)
+        return [([(k, pol)] + c, v) for c, v in value_cases(func, expr.body, _depth + 1)] + \
+               [([(k, not pol)] + c, v) for c, v in value_cases(func, expr.orelse, _depth + 1)]
+    if isinstance(expr, ast.Name) and isinstance(expr.ctx, ast.Load):
+        binds = [a for a in stmts_in(func, ast.Assign) if len(a.targets) == 1 and isinstance(a.targets[0], ast.Name) and a.targets[0].id == expr.id]
+        others = [n for n in own_nodes(func) if isinstance(n, ast.Name) and n.id == expr.id and isinstance(n.ctx, (ast.Store, ast.Del))
+                  and not any(n is a.targets[0] for a in binds)]
+        if others:
+            return [([], expr)]
+        if len(binds) == 1:
+            return value_cases(func, binds[0].value, _depth + 1)
+        if len(binds) == 2:
+            for n in own_nodes(func):
+                if isinstance(n, ast.If) and len(n.body) == 1 and len(n.orelse) == 1 and \
+                        {id(n.body[0]), id(n.orelse[0])} == {id(b) for b in binds}:
+                    k, pol = atom_key(n.test, func)
+                    return [([(k, pol)] + c, v) for c, v in value_cases(func, n.body[0].value, _depth + 1)] + \
+                           [([(k, not pol)] + c, v) for c, v in value_cases(func, n.orelse[0].value, _depth + 1)]
+    return [([], expr)]
+
+
+def sorted_returns(repo, func):
+    """for every `return` of func that hands out a value: the resolved key function (see key_function) by which that value is sorted -
+    `return sorted(xs, key=K)` or `xs.sort(key=K)` directly followed by `return xs` - or None for a return that is not sorted"""
+    out = []
+    for blk_owner in [func] + [n for n in own_nodes(func)]:
+        for field in ('body', 'orelse', 'finalbody'):
+            blk = getattr(blk_owner, field, None)
+            if not (isinstance(blk, list) and blk and isinstance(blk[0], ast.stmt)):
+                continue
+            for i, st in enumerate(blk):
+                if not isinstance(st, ast.Return) or st.value is None:
+                    continue
+                v, key = st.value, None
+                if isinstance(v, ast.Call) and call_name(v) == 'sorted' and isinstance(v.func, ast.Name):
+                    key = kwarg(v, 'key')
+                elif isinstance(v, ast.Name) and i > 0 and isinstance(blk[i - 1], ast.Expr) and isinstance(blk[i - 1].value, ast.Call) \
+                        and norm(blk[i - 1].value.func) == v.id + '.sort':
+                    key = kwarg(blk[i - 1].value, 'key')
+                out.append((st, key_function(repo, func, key) if key is not None else None))
+    return out
+
+
+def selection_of(func):
+    """func hands out the elements of one iterable that satisfy predicates, in order: {'iter': text, 'preds': [texts with the element
+    spelled _x], 'kind': 'list' | 'lazy'} for `for v in I: if P: yield v` (guard-clause form too; @to_list makes it a list),
+    `return [v for v in I if P]`, `return list(<generator>)`, `return (v for v in I if P)`, `return filter(lambda v: P, I)`.  None
+    for anything else."""
+    def rn(e, var):
+        class _R(ast.NodeTransformer):
+            def visit_Name(self, node):
+                return ast.copy_location(ast.Name(id='_x', ctx=node.ctx), node) if node.id == var else node
+        return norm(ast.fix_missing_locations(_R().visit(ast.parse(ast.unparse(e), mode='eval').body)))
+    body = effective_body(func)
+    decs = {norm(d).split('.')[-1] for d in func.decorator_list}
+    if len(body) == 1 and isinstance(body[0], ast.For) and isinstance(body[0].target, ast.Name) and not body[0].orelse:
+        loop, var, preds = body[0], body[0].target.id, []
+        stmts = list(loop.body)
+        while stmts:
+            st = stmts[0]
+            if isinstance(st, ast.If) and not st.orelse and len(stmts) == 1:
+                preds.append(rn(st.test, var))
+                stmts = list(st.body)
+            elif isinstance(st, ast.If) and not st.orelse and len(st.body) == 1 and isinstance(st.body[0], ast.Continue):
+                k = ast.UnaryOp(op=ast.Not(), operand=st.test)
+                from .canon import canonicalise_comparisons
+                preds.append(rn(canonicalise_comparisons(ast.Expression(body=ast.parse(ast.unparse(k), mode='eval').body)).body, var))
+                stmts = stmts[1:]
+            elif isinstance(st, ast.Expr) and isinstance(st.value, ast.Yield) and isinstance(st.value.value, ast.Name) \
+                    and st.value.value.id == var and len(stmts) == 1:
+                return {'iter': norm(loop.iter), 'preds': preds, 'kind': 'list' if 'to_list' in decs else 'lazy'}
+            else:
+                return None
+        return None
+    if len(body) == 1 and isinstance(body[0], ast.Return) and body[0].value is not None and not decs:
+        v, kind = body[0].value, 'lazy'
+        if isinstance(v, ast.Call) and isinstance(v.func, ast.Name) and v.func.id == 'list' and len(v.args) == 1 and not v.keywords:
+            v, kind = v.args[0], 'list'
+        if isinstance(v, ast.ListComp):
+            kind = 'list'
+        if isinstance(v, (ast.ListComp, ast.GeneratorExp)) and len(v.generators) == 1 and isinstance(v.generators[0].target, ast.Name) \
+                and isinstance(v.elt, ast.Name) and v.elt.id == v.generators[0].target.id and not v.generators[0].is_async:
+            g = v.generators[0]
+            return {'iter': norm(g.iter), 'preds': [rn(t, g.target.id) for t in g.ifs], 'kind': kind}
+        if isinstance(v, ast.Call) and isinstance(v.func, ast.Name) and v.func.id == 'filter' and len(v.args) == 2 \
+                and isinstance(v.args[0], ast.Lambda) and len(v.args[0].args.args) == 1:
+            return {'iter': norm(v.args[1]), 'preds': [rn(v.args[0].body, v.args[0].args.args[0].arg)], 'kind': kind}
+    return None
+
+
+def decision_table(func, start, atoms, label_of, want, pure_methods=()):
+    """decide() for every assignment of the named atomic facts `atoms` = [(name, source text of the fact)]; `want(facts)` is the label
+    the run must end with.  Entering `start` is forced true (a test node taken true, a loop head taken into its body).  Returns the
+    list of mismatches as text (empty = the code computes exactly the wanted table, however it is written)."""
+    import itertools
+    keys = []
+    for nm, text in atoms:
+        k, pol = atom_key(ast.parse(text, mode='eval').body, None)
+        keys.append((nm, k, pol))
+    bad = []
+    for bits in itertools.product((False, True), repeat=len(keys)):
+        facts = dict(zip([k[0] for k in keys], bits))
+        env = {k: (v if pol else not v) for (nm, k, pol), v in zip(keys, bits)}
+        got = decide(func, start, lambda key_, n, env=env: True if n is start else env.get(key_), label_of, pure_methods=pure_methods)
+        w = want(facts)
+        w = w if isinstance(w, set) else {w}
+        if got != w:
+            bad.append('%s -> %s, expected %s' % (', '.join('%s=%d' % kv for kv in facts.items()), sorted(got), sorted(w)))
+    return bad
+
+
+def fact_accept(func, text, pure_methods=()):
+    """accept(e, pol) for gate(): the test e, taken with outcome pol, establishes the fact written as `text` - whatever the spelling
+    (complement operators, `not`, mirrored orderings) and whether or not single-assignment temporaries stand for parts of it; write
+    `text` without temporaries (`str(file_io.path) not in except_paths`, not `str(path) ...`)"""
+    k0, p0 = atom_key(ast.parse(text, mode='eval').body, None)
+
+    def accept(e, pol):
+        k, p_ = atom_key(e, func, pure_methods=pure_methods)
+        return k == k0 and (pol == p_) == p0
+    return accept
